@@ -152,4 +152,21 @@ WITNESSES = [
     # declared bra-ket antisymmetry of a bra-ket symmetric quantity
     dict(id="c12-braket-antisymmetric-declared", prop="C12", file=I, expect="R12d",
          old="        return AntiSymmetricTensor('t2sq', indices[:2], indices[2:], 1)", new="        return AntiSymmetricTensor('t2sq', indices[:2], indices[2:], -1)"),
+    # ---- R12f declared spin blocks
+    # shortcut "spin is conserved between upper and lower" (mirrors seeded/C12-5): wrong for t2sq^{ia}_{jb}
+    dict(id="c12-spin-blocks-upper-lower-shortcut", prop="C12", file=I, expect="R12f",
+         old="        target_idx = self.default_idx\n        itmd = self.expand_itmd(indices=target_idx, fully_expand=False)\n        return allowed_spin_blocks(itmd.expand(), target_idx)",
+         new="        tensor = self.tensor(return_sympy=True)\n        if isinstance(tensor, AntiSymmetricTensor) and \\\n                len(tensor.upper) == len(tensor.lower):\n            n = len(tensor.upper)\n            return tuple(sorted(\n                \"\".join(block) for block in product(\"ab\", repeat=2*n)\n                if block[:n].count(\"a\") == block[n:].count(\"a\")\n            ))\n        target_idx = self.default_idx\n        itmd = self.expand_itmd(indices=target_idx, fully_expand=False)\n        return allowed_spin_blocks(itmd.expand(), target_idx)"),
+    # only the blocks that start with alpha are kept ("the others follow by spin flip")
+    dict(id="c12-spin-blocks-alpha-leading-only", prop="C12", file=I, expect="R12f",
+         old="        target_idx = self.default_idx\n        itmd = self.expand_itmd(indices=target_idx, fully_expand=False)\n        return allowed_spin_blocks(itmd.expand(), target_idx)",
+         new="        target_idx = self.default_idx\n        itmd = self.expand_itmd(indices=target_idx, fully_expand=False)\n        return tuple(b for b in allowed_spin_blocks(itmd.expand(), target_idx) if b[0] == 'a')"),
+    # preserving: positional/keyword spelling, no temporaries, function-local import under another name
+    dict(id="c12-ok-spin-blocks-respelled", prop="C12", file=I, expect=None,
+         old="        target_idx = self.default_idx\n        itmd = self.expand_itmd(indices=target_idx, fully_expand=False)\n        return allowed_spin_blocks(itmd.expand(), target_idx)",
+         new="        from .spatial_orbitals import allowed_spin_blocks as spin_blocks\n        return spin_blocks(target_idx=self.default_idx,\n                           expr=self.expand_itmd(self.default_idx, False, False).expand())"),
+    # preserving: probing through a closure, result copied through a comprehension
+    dict(id="c12-ok-spin-blocks-wrapped-result", prop="C12", file=I, expect=None,
+         old="        target_idx = self.default_idx\n        itmd = self.expand_itmd(indices=target_idx, fully_expand=False)\n        return allowed_spin_blocks(itmd.expand(), target_idx)",
+         new="        def probe(idx):\n            expanded = self.expand_itmd(fully_expand=False, indices=idx)\n            return allowed_spin_blocks(expanded.expand(), idx)\n        blocks = [b for b in probe(self.default_idx)]\n        return tuple(blocks)"),
 ]
